@@ -5,7 +5,12 @@
 //! store: exactly one of two same-token CAS writers wins, exactly one Create
 //! wins, the final content is the winner's, a concurrent get answers a
 //! value the key held, reads afterwards agree (on the live instance and on a
-//! fresh one).
+//! fresh one). One `get_ranges` call racing an overwrite must answer all its
+//! ranges from ONE commit. Along the commit order of a key (the backend
+//! journal) `last_modified` never decreases and date conditions built from
+//! the previous commit's timestamp answer as the reference would (logical
+//! clock, every commit observed through a fresh instance over the journal
+//! prefix).
 
 use object_store::{ObjectStore, ObjectStoreExt, memory::InMemory};
 use serde_json::json;
@@ -109,6 +114,24 @@ fn scenarios() -> Vec<Scn> {
             vec![init(0), put(2, 3, Mode::Overwrite)],
             Op::Multi { key: 0, parts: vec![15, 2, 16], var: 2, abort: false },
             Op::Copy { from: 2, to: 0, create: false },
+        ),
+        two(
+            "multipart-vs-multipart",
+            vec![init(0)],
+            Op::Multi { key: 0, parts: vec![15, 2, 16], var: 1, abort: false },
+            Op::Multi { key: 0, parts: vec![16, 1], var: 2, abort: false },
+        ),
+        two(
+            "copy-onto-vs-copy-onto",
+            vec![init(0), put(1, 4, Mode::Overwrite), put(2, 3, Mode::Overwrite)],
+            Op::Copy { from: 1, to: 0, create: false },
+            Op::Copy { from: 2, to: 0, create: false },
+        ),
+        two(
+            "rename-onto-vs-multipart",
+            vec![init(0), put(2, 3, Mode::Overwrite)],
+            Op::Rename { from: 2, to: 0, create: false },
+            Op::Multi { key: 0, parts: vec![15, 2, 16], var: 2, abort: false },
         ),
         two(
             "update-vs-copy-onto",
@@ -935,6 +958,9 @@ fn main() {
                 continue;
             }
             let serial = serial_outcomes(scn);
+            // the multi-range reader has 2-3 times the scheduling points of the
+            // other tasks: its thorough bound is 6 (the others run empty by 8)
+            let bound = if scn.name.starts_with("get_ranges") { bound.min(6) } else { bound };
             // determinism of the harness: the default schedule twice
             let a = run_one(wrap, scn, &serial, &mut Chooser::new(vec![]));
             let b = run_one(wrap, scn, &serial, &mut Chooser::new(vec![]));
@@ -1010,7 +1036,7 @@ fn main() {
     run.set("harnesses", json!(table));
     run.set("preemption_bound", json!(bound));
     run.rule(
-        "per wrapper {MetaStore, EncryptedStore(cs=16); the get_ranges scenarios also EncryptedStore(cs=7)} and scenario (two or three tasks on one key through one wrapper instance over a gated backend; a task is a mutation, a full get, a listing, or ONE get_ranges call of 3-5 ranges in different chunk spans of a three-chunk object racing an equally long overwrite by put / Update / multipart / copy-onto / rename-onto, warm and cold): every schedule of inner-store calls with at most `preemption_bound` preemptions; \
+        "per wrapper {MetaStore, EncryptedStore(cs=16); the get_ranges scenarios also EncryptedStore(cs=7)} and scenario (two or three tasks on one key through one wrapper instance over a gated backend; a task is a mutation, a full get, a listing, or ONE get_ranges call of 3-5 ranges in different chunk spans of a three-chunk object racing an equally long overwrite by put / Update / multipart / copy-onto / rename-onto, warm and cold): every schedule of inner-store calls with at most `preemption_bound` preemptions (the get_ranges scenarios: at most 6 in the thorough tier; per-harness bounds are in `harnesses`); \
          oracle = answers of every action (for get_ranges: all bodies of the one call, so they must come from one commit) and final content of all keys equal some serial order of the tasks' atomic steps run on InMemory (a rename is two steps, copy then delete of the source, as documented; everything else is one), after all tasks returned the live instance's list / list_with_delimiter entries, get_ranges at the length boundaries, get with if_match = latest token and head must reflect the last completed commit as a fresh instance reports it (checked before any plain get, which would heal a stale pointer; a listing that overlaps a commit may itself report either version), live and fresh instance read the same, head/list agree, a surviving put's token is the one it returned; \
          commit order (under a logical clock that advances on every reading): every commit of a key = every meta/<key> put in the backend journal, observed through a fresh instance over the journal prefix: last_modified never decreases from one commit of a key to the next, and get(if_modified_since = T of the previous commit) answers the new object, get(if_unmodified_since = that T) is refused (the other answer only for the very same instant), on the fresh instance at every commit and on the live instance at the end; \
          distinct = distinct observed (answers, final content) outcomes per harness; states = same; transitions = task polls",
